@@ -60,7 +60,8 @@ def stat_case(draw):
     elif dt == 'bool':
         vals = vals > 0
     return {'labels': lab, 'values': vals, 'func': draw(st.sampled_from(sorted(FUNCS))),
-            'out': draw(st.sampled_from([None, 'samples'])), 'column': draw(st.booleans())}
+            'out': draw(st.sampled_from([None, 'samples'])), 'column': draw(st.booleans()),
+            'layout': draw(st.sampled_from(['C', 'C', 'strided', 'readonly']))}
 
 
 def oracle_stat(case, rec):
@@ -75,7 +76,8 @@ def oracle_stat(case, rec):
     except TypeError:
         raise Discard('the reducing function is not defined for this value dtype (e.g. max-min of booleans)')
     try:
-        got = emd.cycles.get_cycle_stat(cyc_in, vals.copy(), out=case['out'], func=func)
+        lay = case.get('layout', 'C')
+        got = emd.cycles.get_cycle_stat(gens.relayout(cyc_in, lay), gens.relayout(vals.copy(), lay), out=case['out'], func=func)
     except Exception as e:
         raise Violation('C14/get_cycle_stat/raises/' + type(e).__name__, repr(e))
     got = np.asarray(got, dtype=float)
